@@ -572,6 +572,8 @@ class C17(Property):
       for data, nframes in st.writes:
         frames += nframes or 0
     res.counters["device-frames-written"] += frames
+    res.counters["sim-time-units"] += sched.steps     # incl. clock jumps
+    res.counters["sim-device-milliseconds"] += int(frames * 1000 / 44100)
     self._probes(res, sched, world, ctl, workload)
     res.steps = sched.work
     res.digest = digest_events(sched.events)
